@@ -62,13 +62,13 @@ pub struct Job {
     /// the table the native `c09_input` builds with the host API
     pub input: Option<V>,
     /// how `c09_input` builds it: false = `Vm::insert_value` (the convenience API; it holds the keys and
-    /// nested values it creates unrooted, finding F-1), true = init_table / init_string / insert with
+    /// nested values it creates unrooted until a1ac5c5, finding F-1), true = init_table / init_string / insert with
     /// every guard held until the table is complete
     #[serde(default)]
     pub rooted: bool,
 }
 impl Job {
-    /// class of the known finding F-1: insert_value under a memory limit that allows collections
+    /// class of finding F-1 (repaired by a1ac5c5): insert_value under a memory limit that allows collections
     pub fn unrooted(&self) -> bool {
         self.input.is_some() && !self.rooted && self.mem_limit < BIG_MEM
     }
@@ -1217,7 +1217,7 @@ fn run_case(a: &Args, w: &mut CaseWriter, sc: &Script, lowmem: bool) -> Outcome 
         }
     }
     if lowmem && sc.job.input.is_some() {
-        w.count(if sc.job.rooted { "lowmem.host_rooted" } else { "lowmem.insert_value (class F-1)" });
+        w.count(if sc.job.rooted { "lowmem.host_rooted" } else { "lowmem.insert_value" });
     }
     if lowmem {
         w.count("stream.lowmem");
@@ -1241,15 +1241,26 @@ fn run_case(a: &Args, w: &mut CaseWriter, sc: &Script, lowmem: bool) -> Outcome 
     o
 }
 
+/// the witnesses of finding F-1 (findings/C09), run first as ordinary cases
+const CORPUS: [(&str, &str); 2] = [
+    ("F-1a", include_str!("../../findings/C09/F-1a_insert_value_key_freed_wrong_table.json")),
+    ("F-1b", include_str!("../../findings/C09/F-1b_insert_value_key_freed_segfault.json")),
+];
+
 pub fn gen(a: &Args) {
     let mut rng = Rng::new(a.seed);
     let mut w = CaseWriter::new(&a.out, "C09Check", 10);
+    for (name, text) in CORPUS.iter() {
+        let job: Job = serde_json::from_str(text).expect("corpus job");
+        let sc = Script { job, classes: vec![format!("corpus.{}", name)], size: 1 };
+        run_case(a, &mut w, &sc, true);
+    }
     while w.len() < a.n {
         let mut sc = gen_script(&mut rng);
         let first = run_case(a, &mut w, &sc, false);
         // second stream: the same script under a small memory limit, derived from what the first run
         // allocated in total (nothing is collected there), so that collections happen but most runs fit
-        // host-built inputs always get the low-memory run (the class of finding F-1 and its rooted control)
+        // host-built inputs always get the low-memory run (the class of the repaired finding F-1 and its rooted control)
         let again = rng.chance(1, 3) || sc.job.input.is_some();
         let factor = *rng.pick(&[50u64, 70, 90, 110, 150, 200]);
         if again && w.len() < a.n {
